@@ -521,10 +521,19 @@ def eval_stale(root, nenv=2):
     try:
         fresh = rebuild(root)
         vs = sorted({n.identifier for n in inorder(root) if hasattr(n, "identifier") and n.identifier})
+        as_tuple = to_tuple(root)
+        fresh_tuple = to_tuple(fresh)
     except Exception:  # noqa
         return None
     for proto in EVAL_PROTOS[:nenv]:
         env = env_for(vs, proto)
+        # only where the exact evaluator says the numbers stay small (a tower of powers would keep
+        # CPython's big-integer arithmetic busy for hours)
+        try:
+            q_eval(as_tuple, env)
+            q_eval(fresh_tuple, env)
+        except (FracPow, OverflowError, ZeroDivisionError, ValueError):
+            continue
         ctxd = {k: (int(v) if v.denominator == 1 else float(v)) for k, v in env.items()}
         a = _outcome(lambda: root.evaluate(dict(ctxd)))
         b = _outcome(lambda: fresh.evaluate(dict(ctxd)))
